@@ -67,7 +67,9 @@ def run(tier, replay=None):
                     lay[i % len(lay)]['rinit'] = True
                 if i % 4 == 2:
                     for spec_ in lay:
-                        spec_['ext'] = True       # packages named vqa get a compiled-extension child
+                        spec_['ext'] = True       # packages named vqa get a compiled-extension child (and files no import can name)
+                if i % 5 == 3:
+                    lay[(i // 5) % len(lay)]['inpkg'] = True     # that source root lies inside a package directory
         n = core.NCPU
         jobs = [{'layouts': layouts[k::n], 'base': os.path.join(wd, 'fs%d' % k)} for k in range(n)]
         jobs = [j for j in jobs if j['layouts']]
